@@ -1,6 +1,7 @@
 //! Shared pieces of the property runners.
 
 use crate::api::*;
+use crate::cur;
 use crate::report::{text_json, Ctx, Reporter};
 use pgvcore::ast::{MapAst, Term};
 use pgvcore::model::{MFrame, Model};
@@ -122,6 +123,14 @@ pub fn for_each_line_query<'a>(
                         f(c, m, *l, if i % 2 == 0 { Some(file0) } else { None });
                     }
                 }
+                // a few lines with file names derived from the class name (present in the universe)
+                for (k, cf) in pgvcore::traces::class_files(c).iter().enumerate() {
+                    if let Some(stored) = names.files.iter().find(|x| *x == cf) {
+                        for l in names.lines.iter().skip(k).step_by(5).take(12) {
+                            f(c, m, *l, Some(stored.as_str()));
+                        }
+                    }
+                }
             } else {
                 f(c, m, 0, None);
                 f(c, m, 1, Some(file0));
@@ -184,5 +193,69 @@ impl ReusedQuery {
             std::ptr::copy_nonoverlapping(s.as_ptr(), base, s.len());
             std::str::from_utf8_unchecked(std::slice::from_raw_parts(base, s.len()))
         }
+    }
+}
+
+pub const SWEEP_CASE: u64 = u64::MAX - 40;
+
+/// The group-size sweep (see `size_sweep_ast`): every class is asked for its method, a few
+/// lines and both parameter strings through mapper and cache; answers must be equal and
+/// nothing may panic. Sizes are spread over the shards.
+pub fn size_sweep(ctx: &Ctx, rep: &mut Reporter, prop_monitor: &str) {
+    let mut sizes: Vec<usize> = (1..=330).filter(|n| (*n as u64) % ctx.nshards == ctx.shard % ctx.nshards).collect();
+    for base in [574usize, 1086] {
+        for d in 0..5 {
+            let n = base - 2 + d;
+            if (n as u64) % ctx.nshards == ctx.shard % ctx.nshards {
+                sizes.push(n);
+            }
+        }
+    }
+    if ctx.slow() {
+        sizes.retain(|n| [66usize, 70, 17, 33].contains(n));
+    }
+    if sizes.is_empty() {
+        return;
+    }
+    ctx.note_case(SWEEP_CASE);
+    let ast = pgvcore::ast::size_sweep_ast(&sizes);
+    let text = ast.print_lf();
+    let r = guarded(|| {
+        let mp = cur::mapper(&text, true);
+        let bytes = cur::write_cache(&text).expect("write to Vec");
+        let buf = pgvcore::util::AlignedBuf::from_bytes(&bytes);
+        let cache = cur::parse_cache(buf.as_slice()).expect("own cache parses");
+        let class_names: Vec<String> = sizes.iter().map(|n| format!("sw.c{n}")).collect();
+        let (mut a, mut b) = (vec![], vec![]);
+        for (n, c) in sizes.iter().zip(&class_names) {
+            let c: &str = c;
+            rep.count("evaluations", 1);
+            rep.count("size_sweep_groups", 1);
+            let mut differ = mp.method(c, "a") != cache.method(c, "a") || mp.method(c, "z") != cache.method(c, "z");
+            for l in [0usize, 1, 2, *n, *n + 1, *n + 7, *n + 19, *n + 21, 2 * *n - 1, 2 * *n, 2 * *n + 1, 2 * *n + 21, usize::MAX] {
+                mp.frames(c, "a", l, None, None, &mut a);
+                cache.frames(c, "a", l, None, None, &mut b);
+                differ |= a != b;
+                // SAFETY of the comparison: both vectors borrow from `c`, `text` and `buf`, all alive here
+            }
+            for p in ["", "int", "long"] {
+                mp.frames(c, "a", 0, None, Some(p), &mut a);
+                cache.frames(c, "a", 0, None, Some(p), &mut b);
+                differ |= a != b;
+            }
+            a.clear();
+            b.clear();
+            if differ {
+                let mut d = Json::obj();
+                d.set("group_size", Json::i(*n as u64));
+                d.set("trailing_entries", Json::i((*n % 4) as u64));
+                rep.violation(SWEEP_CASE, prop_monitor, "group-size sweep: mapper and cache answer differently for a method group of a particular size", d);
+            }
+        }
+    });
+    if let Err(p) = r {
+        let mut d = Json::obj();
+        d.set("mapping", Json::s(format!("size_sweep_ast({sizes:?})")));
+        panic_violation(rep, SWEEP_CASE, "panic", &p, d);
     }
 }
